@@ -544,3 +544,97 @@ func verifC03(K int) {
 
 func VerifC03Quick()    { verifC03(2) }
 func VerifC03Thorough() { verifC03(3) }
+
+// ---------------------------------------------------------------- C18
+
+type c18rec struct {
+	val []byte
+	ver string
+}
+
+// verifC18: one key with a symbolic history over N main-chain blocks (per
+// block: untouched / put / delete / two writes / read-only), optionally
+// pending writes on top; every snapshot must answer what the live reader
+// answered when that block was the tip.
+func verifC18(N int) {
+	e := vkit.NewEnv("c18", vkit.Genesis("0", "9", "5"), nil)
+	s := e.NewState("live")
+	vrt.Assert(s.Play(e.Root.Blockid) == nil, "genesis-plays")
+	tip := e.Root
+	var curTx []byte // current version of k1 (nil = never written)
+	var curOff int32
+	var blocks []*pb.InternalBlock
+	var live []c18rec
+	readLive := func() c18rec {
+		v, err := s.CreateXMReader().Get("bk", []byte("k1"))
+		vrt.Assert(err == nil && v != nil && v.PureData != nil, "live-read-succeeds")
+		return c18rec{append([]byte{}, v.PureData.Value...), string(v.RefTxid) + "/" + string([]byte{byte('0' + v.RefOffset)})}
+	}
+	mk := func(id string, value []byte, write bool) *pb.Transaction {
+		t := vkit.Tx(id, nil, nil)
+		if write {
+			vkit.WithKey(t, "bk", "k1", curTx, curOff, value)
+			curTx, curOff = []byte(id), 0
+		} else {
+			vkit.WithKey(t, "bk", "k1", curTx, curOff, nil)
+		}
+		return t
+	}
+	blocks = append(blocks, tip)
+	live = append(live, readLive())
+	for i := 1; i <= N; i++ {
+		tag := string([]byte{byte('0' + i)})
+		txs := []*pb.Transaction{vkit.Coinbase("cb"+tag, "M", []byte{7})}
+		switch vrt.Choice("action", 5) {
+		case 0: // untouched
+		case 1: // put
+			v := vrt.Bytes("v"+tag, 1)
+			vrt.Assume(v[0] != 0)
+			txs = append(txs, mk("w"+tag, v, true))
+		case 2: // delete
+			txs = append(txs, mk("d"+tag, []byte{0}, true))
+		case 3: // two writes in one block
+			v := vrt.Bytes("v"+tag, 1)
+			vrt.Assume(v[0] != 0)
+			txs = append(txs, mk("a"+tag, []byte("first"), true), mk("b"+tag, v, true))
+		case 4: // read-only
+			txs = append(txs, mk("r"+tag, nil, false))
+		}
+		b := vkit.Block(tip.Blockid, int32(i), txs)
+		vrt.Assert(e.L.ConfirmBlock(b, false).Succ, "block-confirmed-by-ledger")
+		vrt.Assert(s.Play(b.Blockid) == nil, "block-plays")
+		tip = b
+		blocks = append(blocks, b)
+		live = append(live, readLive())
+	}
+	// pending writes on top of the tip
+	np := vrt.Choice("pending", 3)
+	for p := 0; p < np; p++ {
+		t := mk("p"+string([]byte{byte('0' + p)}), []byte("pending"), true)
+		vrt.Assert(s.DoTx(t) == nil, "pending-write-admitted")
+	}
+	for i, b := range blocks {
+		snap, err := s.CreateSnapshot(b.Blockid)
+		vrt.Assert(err == nil, "snapshot-created")
+		v, err := snap.Get("bk", []byte("k1"))
+		vrt.Assert(err == nil && v != nil && v.PureData != nil, "snapshot-read-succeeds")
+		if err != nil || v == nil || v.PureData == nil {
+			continue
+		}
+		vrt.Assert(string(v.PureData.Value) == string(live[i].val), "snapshot-value-is-value-when-block-was-tip")
+		vrt.Assert(string(v.RefTxid)+"/"+string([]byte{byte('0' + v.RefOffset)}) == live[i].ver, "snapshot-version-is-version-when-block-was-tip")
+		rd, err := s.CreateXMSnapshotReader(b.Blockid)
+		vrt.Assert(err == nil, "snapshot-reader-created")
+		got, err := rd.Get("bk", []byte("k1"))
+		vrt.Assert(err == nil && string(got) == string(live[i].val), "snapshot-reader-value-is-value-when-block-was-tip")
+	}
+	// the tip snapshot never exposes pending writes
+	tr, err := s.GetTipXMSnapshotReader()
+	vrt.Assert(err == nil, "tip-snapshot-reader-created")
+	got, err := tr.Get("bk", []byte("k1"))
+	vrt.Cover("pending-on-top", np > 0)
+	vrt.Assert(err == nil && string(got) == string(live[len(live)-1].val), "tip-snapshot-hides-pending-writes")
+}
+
+func VerifC18Quick()    { verifC18(3) }
+func VerifC18Thorough() { verifC18(4) }
